@@ -497,3 +497,60 @@ def automata_sharing_a_source_dictionary(tier, rng, rep):
             rep.case(key=(t, hist), nontrivial=True, sample=inp if (t, hist) == (0, "caller_edits_its_dictionary") else None)
             if len(rep.failures) >= 3:
                 return
+
+
+@bounded(P, "pruned_and_edited_automata", functions=F_ALL + ["geometry_tools/automata/fsa.py:FSA.delete_vertex", "geometry_tools/automata/fsa.py:FSA.recurrent", "geometry_tools/automata/fsa.py:FSA.add_edges"],
+         note="automata edited before the enumeration: a vertex with several parallel incoming edges deleted, dead ends pruned (in place and as a copy), edges added afterwards; the returned "
+              "words are those of the edited model, the automaton's own enumeration and acceptance agree with them")
+def pruned_and_edited_automata(tier, rng, rep):
+    N = 200 if tier == 'thorough' else 50
+    rep.rule = f"{N} random automata on 3..5 states over {{a, b, A}} with few distinct targets per state (parallel edges are common); edits: delete_vertex of a non-start state, recurrent(inplace=True), recurrent() copy, add_edges after pruning; lengths 0..3"
+    rep.bound = f"{N} automata x 3 edits"
+    labels = ["a", "b", "A"]
+    for t in range(N):
+        nv = int(rng.integers(3, 6))
+        d = {}
+        for v in range(nv):
+            tg = [int(rng.integers(0, nv)), int(rng.integers(0, nv))]
+            d[v] = {l: tg[int(rng.integers(0, 2))] for l in labels if rng.random() < 0.8}
+        for edit in ("delete_vertex", "recurrent_inplace", "recurrent_copy"):
+            inp = {"graph_dict": {str(k): v for k, v in d.items()}, "edit": edit}
+
+            def body():
+                F = fsa.FSA(copy.deepcopy(d), [0])
+                M = Model.from_graph_dict(d)
+                if edit == "delete_vertex":
+                    # the non-start state with the most parallel incoming edges
+                    cand = sorted(range(1, nv), key=lambda v: -max([sum(1 for (s, l, w) in M.E if s == u and w == v) for u in range(nv)] + [0]))
+                    v = cand[0]
+                    F.delete_vertex(v); M.delete_vertex(v)
+                    G = F
+                else:
+                    keep = M.recurrent_vertices()
+                    for v in list(M.V - keep):
+                        M.delete_vertex(v)
+                    if edit == "recurrent_inplace":
+                        F.recurrent(inplace=True); G = F
+                    else:
+                        G = F.recurrent()
+                if 0 not in M.V:
+                    return
+                R, mats = make_rep(labels)
+                for L in range(0, 4):
+                    want = sorted("".join(w) for n in range(L + 1) for w, _ in M.paths(0, n))
+                    ms, ws = R.automaton_accepted(G, L, with_words=True)
+                    if sorted(ws) != want:
+                        rep.fail("returned_words_are_exactly_the_accepted_words", f"after {edit}, length {L}: {sorted(ws)} vs {want}", {**inp, "length": L}); return
+                    try:
+                        own = sorted(G.enumerate_words(L, start_vertex=0))
+                    except Exception as e:
+                        rep.fail("agrees_with_enumerate_words", f"after {edit}, length {L}: the automaton's own enumeration raises {type(e).__name__}: {e}", {**inp, "length": L}); return
+                    if own != want:
+                        rep.fail("agrees_with_enumerate_words", f"after {edit}, length {L}: the automaton's own enumeration {own} vs {want}", {**inp, "length": L}); return
+                    for w in itertools.product(labels, repeat=min(L, 2)):
+                        if G.accepts("".join(w)) != (M.follow(0, w) is not None):
+                            rep.fail("returned_words_are_exactly_the_accepted_words", f"after {edit}: accepts({''.join(w)!r}) disagrees with the returned words", {**inp, "word": "".join(w)}); return
+            rep.attempt("enumeration_runs", inp, body)
+            rep.case(key=(t, edit), nontrivial=True, sample=inp if (t, edit) == (0, "delete_vertex") else None)
+            if len(rep.failures) >= 3:
+                return
